@@ -75,6 +75,8 @@ func (e *SExpr) String() string {
 			vs = append(vs, v.Name+" "+v.Type)
 		}
 		return "(" + e.Op + " " + strings.Join(vs, ", ") + " :: " + e.Args[0].String() + ")"
+	case "deref":
+		return "*" + e.Args[0].String()
 	case "old":
 		return "old(" + e.Args[0].String() + ")"
 	case "ite":
@@ -434,6 +436,11 @@ func (p *sparser) unary() *SExpr {
 		p.next()
 		e := p.unary()
 		return &SExpr{Op: "un", Name: "-", Args: []*SExpr{e}, Pos: e.Pos}
+	}
+	if p.isOp("*") {
+		p.next()
+		e := p.unary()
+		return &SExpr{Op: "deref", Args: []*SExpr{e}, Pos: e.Pos}
 	}
 	return p.postfix()
 }
